@@ -103,7 +103,9 @@ impl<P: PlanePersistence, F: FnMut() -> Result<P, StoreError>> ChildExec<P, F> {
         let n_agents = self.uris.len();
         let Some(item) = target_item(op, n_items) else {
             match op {
-                Op::ReopenNode(s) | Op::Handover(s) => self.drop_node(pick_index(*s, n_agents)),
+                Op::ReopenNode(s) | Op::Handover(s) | Op::Stop(s) => self.drop_node(pick_index(*s, n_agents)),
+                // not generated for the kill tier
+                Op::Request(_) | Op::Abandon(..) | Op::Resolve(..) => {}
                 _ => {
                     for a in 0..n_agents {
                         self.drop_node(a);
